@@ -197,6 +197,57 @@ func mutateFlow(p *prog.Program, r *prog.Rand) []mutant {
 		}
 		return false
 	})
+	// dependency cycles that lead to no Results value and no Invoke task: a ring
+	// of added tasks on fresh types, next to the well-formed rest of the flow
+	// (every output of the ring is consumed - inside the ring -, every input has
+	// a provider, nothing is provided twice: the cycle is the only defect)
+	addTask := func(q *prog.Program, ins, outs []int, pred []int) {
+		q.NumFns++
+		t := prog.Task{Fn: prog.Fn{ID: q.NumFns, Role: "task", Ins: ins, Outs: outs, Err: r.Chance(1, 2), Ctx: r.Chance(1, 3)}}
+		if pred != nil {
+			q.NumFns++
+			t.Pred = &prog.Fn{ID: q.NumFns, Role: "pred", Ins: pred}
+		}
+		q.Flow.Tasks = append(q.Flow.Tasks, t)
+		// listed at a random place among the tasks
+		at := r.Intn(len(q.Flow.Listing) + 1)
+		q.Flow.Listing = append(q.Flow.Listing, 0)
+		copy(q.Flow.Listing[at+1:], q.Flow.Listing[at:])
+		q.Flow.Listing[at] = len(q.Flow.Tasks) - 1
+	}
+	island := func(kind string, n int, viaPred, fed bool) {
+		mk(kind, func(q *prog.Program) bool {
+			ts := make([]int, n)
+			for i := range ts {
+				ts[i] = newType(q)
+			}
+			for i := 0; i < n; i++ {
+				ins, outs := []int{ts[i]}, []int{ts[(i+1)%n]}
+				var pred []int
+				if viaPred && i == 0 {
+					ins, pred = nil, []int{ts[0]}
+				}
+				if fed && i == n-1 {
+					// the ring also consumes a value of the well-formed part
+					var have []int
+					have = append(have, q.Flow.Params...)
+					for _, t := range q.Flow.Tasks[:nt] {
+						have = append(have, t.Fn.Outs...)
+					}
+					if len(have) == 0 {
+						return false
+					}
+					ins = append(ins, have[r.Intn(len(have))])
+				}
+				addTask(q, ins, outs, pred)
+			}
+			return true
+		})
+	}
+	island("cycle-island", 2, false, false)
+	island("cycle-island-long", 3, false, false)
+	island("cycle-island-through-predicate", 2, true, false)
+	island("cycle-island-fed", 2, false, true)
 	mk("unused-param", func(q *prog.Program) bool {
 		q.Flow.Params = append(q.Flow.Params, newType(q))
 		q.Flow.SplitParams = false
